@@ -189,7 +189,7 @@ def gen(repo, pins):
         raise TieError('handle_event: no arm for %r' % missing[:5])
     pinned = {}
     for name in ('handle_msg', 'disconnect', 'drop_connection', 'send_open', 'send_notification', 'send_keepalive', 'set_negotiated_config',
-                 'manual_start', 'connection_established', 'tick', 'parse_frame', 'read_frame'):
+                 'manual_start', 'connection_established', 'tick', 'parse_frame', 'read_frame', 'attach_stream', 'for_read_half'):
         pinned[name] = sha(norm(find_fn(src, name)[0]))
     with open(os.path.join(repo, 'src/bgp/fsm/timers.rs')) as f:
         tsrc = strip_comments(f.read())
